@@ -2465,13 +2465,16 @@ class BDD(dd._abc.BDD[_Ref]):
             level_map[i] = j
         umap = {1: 1}
             # the terminal node can be a root
-        for u in succ:
-            # already added ?
-            if u in umap:
-                continue
-            # add
-            self._load(
-                u, succ, umap, level_map)
+        # intermediate results are unreferenced, and
+        # `level_map` assumes the current order
+        with _SuspendedReordering(self):
+            for u in succ:
+                # already added ?
+                if u in umap:
+                    continue
+                # add
+                self._load(
+                    u, succ, umap, level_map)
         return umap, d['roots']
 
     def _load(
@@ -2503,7 +2506,10 @@ class BDD(dd._abc.BDD[_Ref]):
             v, succ, umap, level_map)
         q = self._load(
             w, succ, umap, level_map)
-        r = self.find_or_add(j, p, q)
+        # the variable order of `self` can differ from
+        # the order that the nodes were dumped with
+        g = self.find_or_add(j, -1, 1)
+        r = self.ite(g, q, p)
         if r <= 0:
             raise AssertionError(r)
         umap[abs(u)] = r
